@@ -806,7 +806,7 @@ class PositionArray(PosBase):
         trs_dir = self.trs.direction_to(other.trs)
         up_proj = np.squeeze(nputil.row(trs_dir) @ nputil.col(self.enu_up))
 
-        return np.arcsin(up_proj)
+        return np.arcsin(np.clip(up_proj, -1.0, 1.0))
 
     @property
     @register_field(units=("radians",), dependence="other")
